@@ -1,7 +1,554 @@
-From Coq Require Import List ZArith Bool Lia.
-From Bfe Require Import lib.Val lib.Bytes model.Http1Req model.Http1Write run.RunC25.
+(* Proofs about model/Http1Write.v (C25). *)
+From Coq Require Import List ZArith Bool Lia ZifyBool.
+From Bfe Require Import lib.Val lib.Bytes model.Http1Req model.Http1Write proofs.Http1ReqProofs run.RunC25.
 Import ListNotations.
 Open Scope Z_scope.
 
-Lemma placeholder_c25 : kf_C25 (VZ 0) = 0.
-Proof. reflexivity. Qed.
+(* ---------- bytes / lines ---------- *)
+Lemma tchar_range b : is_tchar b = true -> 33 <= b <= 126 /\ b <> 58.
+Proof. unfold is_tchar, is_alpha, is_digit. cbn [existsb]. lia. Qed.
+
+Lemma forallb_impl {A} (P Q : A -> bool) l :
+  (forall x, P x = true -> Q x = true) -> forallb P l = true -> forallb Q l = true.
+Proof.
+  intros H. induction l as [|x l IH]; simpl; [reflexivity|]. intro E. apply andb_true_iff in E. destruct E as [E1 E2].
+  rewrite (H _ E1), (IH E2). reflexivity.
+Qed.
+
+Lemma split_crlf_app l r : no_crlf l = true -> split_crlf (l ++ 13 :: 10 :: r) = Some (l, r).
+Proof.
+  unfold no_crlf. induction l as [|x l IH]; intro H.
+  - reflexivity.
+  - cbn [forallb] in H. apply andb_true_iff in H. destruct H as [H1 H2].
+    cbn [app split_crlf]. destruct (x =? 13) eqn:E13; [cbn in H1; discriminate|].
+    destruct (x =? 10) eqn:E10; [rewrite orb_true_r in H1; discriminate|].
+    rewrite (IH H2). reflexivity.
+Qed.
+
+Definition nosep (c : Z) (a : bytes) : bool := forallb (fun b => negb (b =? c)) a.
+Lemma split_byte_nosep c a : nosep c a = true -> split_byte c a = [a].
+Proof.
+  unfold nosep. induction a as [|x a IH]; intro H; [reflexivity|].
+  cbn [forallb] in H. apply andb_true_iff in H. destruct H as [H1 H2]. apply negb_true_iff in H1.
+  cbn [split_byte]. rewrite (IH H2), H1. reflexivity.
+Qed.
+Lemma split_byte_app c a b : nosep c a = true -> split_byte c (a ++ c :: b) = a :: split_byte c b.
+Proof.
+  unfold nosep. induction a as [|x a IH]; intro H.
+  - cbn [app split_byte]. pose proof (split_byte_nonempty c b) as Hne.
+    destruct (split_byte c b); [congruence|]. rewrite Z.eqb_refl. reflexivity.
+  - cbn [forallb] in H. apply andb_true_iff in H. destruct H as [H1 H2]. apply negb_true_iff in H1.
+    cbn [app split_byte]. rewrite (IH H2), H1. reflexivity.
+Qed.
+Lemma index_byte_app c k r : nosep c k = true -> index_byte c (k ++ c :: r) = Some (length k).
+Proof.
+  unfold nosep. induction k as [|x k IH]; intro H.
+  - cbn. rewrite Z.eqb_refl. reflexivity.
+  - cbn [forallb] in H. apply andb_true_iff in H. destruct H as [H1 H2]. apply negb_true_iff in H1.
+    cbn [app index_byte length]. rewrite H1, (IH H2). reflexivity.
+Qed.
+
+Lemma token_nosep c k : is_token k = true -> (c < 33 \/ c = 58 \/ 126 < c) -> nosep c k = true.
+Proof.
+  intros Ht Hc. unfold nosep. destruct k as [|x k]; [discriminate|]. unfold is_token in Ht.
+  apply (forallb_impl is_tchar); [|exact Ht]. intros b Hb. apply tchar_range in Hb. lia.
+Qed.
+Lemma token_no_crlf k : is_token k = true -> no_crlf k = true.
+Proof.
+  intro Ht. unfold no_crlf. destruct k as [|x k]; [discriminate|]. unfold is_token in Ht.
+  apply (forallb_impl is_tchar); [|exact Ht]. intros b Hb. apply tchar_range in Hb. lia.
+Qed.
+Lemma no_crlf_app a b : no_crlf (a ++ b) = no_crlf a && no_crlf b.
+Proof. unfold no_crlf. apply forallb_app. Qed.
+
+(* ---------- one header line, a block of header lines ---------- *)
+Definition line (kv : bytes * bytes) : bytes := fst kv ++ colon_sp ++ snd kv ++ crlf.
+Definition good_kv (kv : bytes * bytes) : bool := is_token (fst kv) && no_crlf (snd kv).
+Definition parsed (kv : bytes * bytes) : bytes * bytes := (fst kv, trim is_space (snd kv)).
+
+Lemma strict_field_line k v : is_token k = true -> strict_field (k ++ colon_sp ++ v) = Some (k, trim is_space v).
+Proof.
+  intro Ht. unfold strict_field, colon_sp. cbn [app].
+  rewrite (index_byte_app 58 k (32 :: v)) by (apply token_nosep; [exact Ht|lia]).
+  rewrite firstn_app, Nat.sub_diag, firstn_all. cbn [firstn]. rewrite app_nil_r, Ht.
+  replace (skipn (S (length k)) (k ++ 58 :: 32 :: v)) with (32 :: v); [reflexivity|].
+  clear Ht. induction k as [|x k IH]; [reflexivity|]. cbn [length app]. rewrite skipn_cons. exact IH.
+Qed.
+
+Lemma strict_fields_lines : forall L fuel acc B,
+  forallb good_kv L = true -> (length L < fuel)%nat ->
+  strict_fields fuel (concat (map line L) ++ 13 :: 10 :: B) acc = Some (rev acc ++ map parsed L, B).
+Proof.
+  induction L as [|kv L IH]; intros fuel acc B Hg Hf.
+  - destruct fuel as [|f]; [inversion Hf|]. cbn. rewrite app_nil_r. reflexivity.
+  - destruct fuel as [|f]; [inversion Hf|].
+    cbn [forallb] in Hg. apply andb_true_iff in Hg. destruct Hg as [Hk HL].
+    unfold good_kv in Hk. apply andb_true_iff in Hk. destruct Hk as [Hk Hv].
+    cbn [map concat]. unfold line at 1. unfold crlf.
+    replace (((fst kv ++ colon_sp ++ snd kv ++ [13; 10]) ++ concat (map line L)) ++ 13 :: 10 :: B)
+      with ((fst kv ++ colon_sp ++ snd kv) ++ 13 :: 10 :: (concat (map line L) ++ 13 :: 10 :: B)).
+    2:{ rewrite <- !app_assoc. reflexivity. }
+    cbn [strict_fields]. rewrite split_crlf_app.
+    2:{ rewrite !no_crlf_app, (token_no_crlf _ Hk), Hv. reflexivity. }
+    destruct (fst kv ++ colon_sp ++ snd kv) as [|c l] eqn:El.
+    { destruct (fst kv); [discriminate|discriminate]. }
+    rewrite <- El, (strict_field_line _ _ Hk).
+    rewrite IH; [|exact HL|simpl in Hf; lia].
+    cbn [rev map]. unfold parsed at 2. rewrite <- app_assoc. reflexivity.
+Qed.
+
+(* ---------- decimal text round trip ---------- *)
+Definition dval (l : bytes) (a : Z) : Z := fold_left (fun a b => a * 10 + (b - 48)) l a.
+Lemma dval_acc l : forall a, dval l a = a * 10 ^ (blen l) + dval l 0.
+Proof.
+  unfold blen. induction l as [|d l IH]; intro a; cbn [dval fold_left length].
+  - simpl. lia.
+  - fold (dval l (a * 10 + (d - 48))). fold (dval l (0 * 10 + (d - 48))).
+    rewrite (IH (a * 10 + (d - 48))), (IH (0 * 10 + (d - 48))).
+    rewrite Nat2Z.inj_succ, Z.pow_succ_r by lia. ring.
+Qed.
+Lemma dec_digits_spec : forall fuel n acc,
+  0 <= n < 10 ^ (Z.of_nat fuel) -> (0 < fuel)%nat -> forallb is_digit acc = true ->
+  forallb is_digit (dec_digits fuel n acc) = true /\
+  dval (dec_digits fuel n acc) 0 = n * 10 ^ (blen acc) + dval acc 0 /\
+  dec_digits fuel n acc <> [].
+Proof.
+  induction fuel as [|f IH]; intros n acc Hn Hf Ha; [inversion Hf|].
+  cbn [dec_digits].
+  assert (Hd : is_digit (48 + n mod 10) = true).
+  { unfold is_digit. pose proof (Z.mod_pos_bound n 10). lia. }
+  assert (Hv : dval ((48 + n mod 10) :: acc) 0 = (n mod 10) * 10 ^ (blen acc) + dval acc 0).
+  { cbn [dval fold_left]. fold (dval acc (0 * 10 + (48 + n mod 10 - 48))). rewrite dval_acc.
+    replace (0 * 10 + (48 + n mod 10 - 48)) with (n mod 10) by lia. reflexivity. }
+  destruct (n / 10 =? 0) eqn:E.
+  - apply Z.eqb_eq in E. repeat split.
+    + cbn [forallb]. rewrite Hd, Ha. reflexivity.
+    + rewrite Hv. assert (Hnm : n = n mod 10) by (pose proof (Z.div_mod n 10); lia). rewrite <- Hnm. reflexivity.
+    + discriminate.
+  - apply Z.eqb_neq in E.
+    assert (Hn' : 0 <= n / 10 < 10 ^ Z.of_nat f).
+    { rewrite Nat2Z.inj_succ, Z.pow_succ_r in Hn by lia. split; [apply Z.div_pos; lia|].
+      apply Z.div_lt_upper_bound; lia. }
+    assert (Hf' : (0 < f)%nat).
+    { destruct f; [|lia]. simpl in Hn'. assert (n / 10 = 0) by lia. congruence. }
+    destruct (IH (n / 10) ((48 + n mod 10) :: acc) Hn' Hf') as [I1 [I2 I3]].
+    { cbn [forallb]. rewrite Hd, Ha. reflexivity. }
+    repeat split; [exact I1| |exact I3].
+    rewrite I2, Hv. unfold blen. cbn [length]. rewrite Nat2Z.inj_succ, Z.pow_succ_r by lia.
+    assert (Hdm : n = 10 * (n / 10) + n mod 10) by (apply Z.div_mod; lia).
+    set (q := n / 10) in *. set (m := n mod 10) in *. set (p := 10 ^ Z.of_nat (length acc)).
+    replace (n * p) with ((10 * q + m) * p) by (rewrite <- Hdm; reflexivity). ring.
+Qed.
+Lemma parse_dec_dec_of_Z n : 0 <= n < 10 ^ 80 ->
+  parse_dec (dec_of_Z n) = Some n /\ forallb is_digit (dec_of_Z n) = true.
+Proof.
+  intro Hn. unfold dec_of_Z. destruct (n <? 0) eqn:E; [lia|].
+  destruct (dec_digits_spec 80 n [] ltac:(simpl; lia) ltac:(lia) eq_refl) as [H1 [H2 H3]].
+  split; [|exact H1]. unfold parse_dec. destruct (dec_digits 80 n []) as [|z0 l0] eqn:Ed; [congruence|].
+  rewrite H1. f_equal. change (dval (z0 :: l0) 0 = n). rewrite H2. cbn. lia.
+Qed.
+
+Lemma trim_left_head f x r : f x = false -> trim_left f (x :: r) = x :: r.
+Proof. intro H. cbn. rewrite H. reflexivity. Qed.
+Lemma trim_id f l : forallb (fun b => negb (f b)) l = true -> trim f l = l.
+Proof.
+  intro H. unfold trim, trim_right.
+  assert (H1 : trim_left f l = l).
+  { destruct l as [|x r]; [reflexivity|]. cbn [forallb] in H. apply andb_true_iff in H. destruct H as [H _].
+    apply negb_true_iff in H. apply trim_left_head. exact H. }
+  rewrite H1.
+  assert (H2 : forallb (fun b => negb (f b)) (rev l) = true).
+  { apply forallb_forall. intros x Hx. apply in_rev in Hx. revert x Hx. apply forallb_forall. exact H. }
+  destruct (rev l) as [|x r] eqn:Er.
+  - cbn. destruct l; [reflexivity|]. apply (f_equal (@length Z)) in Er. rewrite rev_length in Er. discriminate.
+  - cbn [forallb] in H2. apply andb_true_iff in H2. destruct H2 as [H2 _]. apply negb_true_iff in H2.
+    rewrite (trim_left_head _ _ _ H2). rewrite <- Er. apply rev_involutive.
+Qed.
+Lemma digits_trim l : forallb is_digit l = true -> trim is_space l = l.
+Proof.
+  intro H. apply trim_id. apply (forallb_impl is_digit); [|exact H].
+  intros b Hb. unfold is_digit, is_space in *. lia.
+Qed.
+
+(* ---------- hexadecimal chunk-size round trip ---------- *)
+Definition hexv (b : Z) : Z := match hex_val b with Some d => d | None => 0 end.
+Definition ishex (b : Z) : bool := match hex_val b with Some _ => true | None => false end.
+Definition hv (l : bytes) (a : Z) : Z := fold_left (fun a b => a * 16 + hexv b) l a.
+Lemma parse_hex_ok l : forall a, forallb ishex l = true -> parse_hex l a = Some (hv l a).
+Proof.
+  induction l as [|b l IH]; intros a H; [reflexivity|].
+  cbn [forallb] in H. apply andb_true_iff in H. destruct H as [H1 H2].
+  cbn [parse_hex hv fold_left]. unfold ishex in H1. unfold hexv. destruct (hex_val b) as [d|]; [|discriminate].
+  apply IH. exact H2.
+Qed.
+Lemma hv_acc l : forall a, hv l a = a * 16 ^ (blen l) + hv l 0.
+Proof.
+  unfold blen. induction l as [|d l IH]; intro a; cbn [hv fold_left length].
+  - simpl. lia.
+  - fold (hv l (a * 16 + hexv d)). fold (hv l (0 * 16 + hexv d)).
+    rewrite (IH (a * 16 + hexv d)), (IH (0 * 16 + hexv d)).
+    rewrite Nat2Z.inj_succ, Z.pow_succ_r by lia. ring.
+Qed.
+Lemma hex_digit_ok d : 0 <= d < 16 -> ishex (hex_digit d) = true /\ hexv (hex_digit d) = d /\ hex_digit d <> 13 /\ hex_digit d <> 10.
+Proof.
+  intro H. unfold ishex, hexv, hex_val, hex_digit, is_digit.
+  destruct (d <? 10) eqn:E.
+  - replace ((48 <=? 48 + d) && (48 + d <=? 57)) with true by lia. repeat split; lia.
+  - replace ((48 <=? 87 + d) && (87 + d <=? 57)) with false by lia.
+    replace ((97 <=? 87 + d) && (87 + d <=? 102)) with true by lia. repeat split; lia.
+Qed.
+Lemma hex_digits_spec : forall fuel n acc (k : nat),
+  0 <= n < 16 ^ (Z.of_nat k) -> (0 < k <= fuel)%nat -> forallb ishex acc = true -> no_crlf acc = true ->
+  forallb ishex (hex_digits fuel n acc) = true /\ hv (hex_digits fuel n acc) 0 = n * 16 ^ (blen acc) + hv acc 0 /\ hex_digits fuel n acc <> [] /\ (length (hex_digits fuel n acc) <= length acc + k)%nat /\ no_crlf (hex_digits fuel n acc) = true.
+Proof.
+  induction fuel as [|f IH]; intros n acc k Hn Hk Ha Hc; [lia|].
+  cbn [hex_digits].
+  assert (Hm : 0 <= n mod 16 < 16) by (apply Z.mod_pos_bound; lia).
+  destruct (hex_digit_ok _ Hm) as [D1 [D2 [D3 D4]]].
+  assert (Hv : hv (hex_digit (n mod 16) :: acc) 0 = (n mod 16) * 16 ^ (blen acc) + hv acc 0).
+  { cbn [hv fold_left]. fold (hv acc (0 * 16 + hexv (hex_digit (n mod 16)))). rewrite hv_acc, D2.
+    replace (0 * 16 + n mod 16) with (n mod 16) by lia. reflexivity. }
+  assert (Hc' : no_crlf (hex_digit (n mod 16) :: acc) = true).
+  { unfold no_crlf in *. cbn [forallb]. rewrite Hc, andb_true_r.
+    apply negb_true_iff. apply orb_false_iff. split; apply Z.eqb_neq; assumption. }
+  destruct (n / 16 =? 0) eqn:E.
+  - apply Z.eqb_eq in E. repeat split.
+    + cbn [forallb]. rewrite D1, Ha. reflexivity.
+    + rewrite Hv. assert (Hnm : n = n mod 16) by (pose proof (Z.div_mod n 16); lia). rewrite <- Hnm. reflexivity.
+    + discriminate.
+    + cbn [length]. lia.
+    + exact Hc'.
+  - apply Z.eqb_neq in E.
+    destruct k as [|k']; [lia|].
+    assert (Hn' : 0 <= n / 16 < 16 ^ Z.of_nat k').
+    { rewrite Nat2Z.inj_succ, Z.pow_succ_r in Hn by lia. split; [apply Z.div_pos; lia|].
+      apply Z.div_lt_upper_bound; lia. }
+    assert (Hk' : (0 < k' <= f)%nat).
+    { split; [|lia]. destruct k'; [|lia]. simpl in Hn'. assert (n / 16 = 0) by lia. congruence. }
+    destruct (IH (n / 16) (hex_digit (n mod 16) :: acc) k' Hn' Hk') as [I1 [I2 [I3 [I4 I5]]]].
+    { cbn [forallb]. rewrite D1, Ha. reflexivity. }
+    { exact Hc'. }
+    repeat split; [exact I1| |exact I3| |exact I5].
+    + rewrite I2, Hv. unfold blen. cbn [length]. rewrite Nat2Z.inj_succ, Z.pow_succ_r by lia.
+      assert (Hdm : n = 16 * (n / 16) + n mod 16) by (apply Z.div_mod; lia).
+      set (q := n / 16) in *. set (m := n mod 16) in *. set (p := 16 ^ Z.of_nat (length acc)).
+      replace (n * p) with ((16 * q + m) * p) by (rewrite <- Hdm; reflexivity). ring.
+    + cbn [length] in I4. lia.
+Qed.
+Lemma parse_hex_line_hex_of_Z n : 0 <= n < 16 ^ 16 ->
+  parse_hex_line (hex_of_Z n) = Some n /\ no_crlf (hex_of_Z n) = true.
+Proof.
+  intro Hn. unfold hex_of_Z.
+  destruct (hex_digits_spec 20 n [] 16 ltac:(simpl; lia) ltac:(lia) eq_refl eq_refl) as [H1 [H2 [H3 [H4 H5]]]].
+  split; [|exact H5]. unfold parse_hex_line.
+  destruct (hex_digits 20 n []) as [|z0 l0] eqn:Ed; [congruence|].
+  cbn [length] in H4.
+  replace (length (z0 :: l0) <=? 16)%nat with true by (symmetry; apply Nat.leb_le; cbn [length]; lia).
+  rewrite (parse_hex_ok _ 0 H1), H2. cbn. f_equal. lia.
+Qed.
+
+(* strict chunk parser on what chunkedWriter produced *)
+Lemma skipn_app_len {A} (a b : list A) : skipn (length a) (a ++ b) = b.
+Proof. induction a as [|x a IH]; [reflexivity|]. cbn [length app]. rewrite skipn_cons. exact IH. Qed.
+Lemma firstn_app_len {A} (a b : list A) : firstn (length a) (a ++ b) = a.
+Proof. induction a as [|x a IH]; [reflexivity|]. cbn [length app firstn]. rewrite IH. reflexivity. Qed.
+Lemma strict_chunks_written : forall cs fuel acc,
+  forallb (fun d => blen d <? 16 ^ 16) cs = true -> (length cs < fuel)%nat ->
+  strict_chunks fuel (concat (map write_chunk cs) ++ [48; 13; 10; 13; 10]) acc = Some (acc ++ concat cs, []).
+Proof.
+  induction cs as [|d cs IH]; intros fuel acc Hb Hf.
+  - destruct fuel as [|f]; [inversion Hf|]. cbn. rewrite app_nil_r. reflexivity.
+  - cbn [forallb] in Hb. apply andb_true_iff in Hb. destruct Hb as [Hd Hcs].
+    destruct d as [|d0 d'].
+    + cbn [map concat write_chunk app]. rewrite IH; [reflexivity|exact Hcs|cbn [length] in Hf; lia].
+    + destruct fuel as [|f]; [inversion Hf|].
+      set (d := d0 :: d') in *.
+      assert (Hn : 0 <= blen d < 16 ^ 16) by (unfold blen in *; lia).
+      destruct (parse_hex_line_hex_of_Z _ Hn) as [Hp Hc].
+      cbn [map concat]. change (write_chunk d) with (hex_of_Z (blen d) ++ [13; 10] ++ d ++ [13; 10]).
+      replace (((hex_of_Z (blen d) ++ [13; 10] ++ d ++ [13; 10]) ++ concat (map write_chunk cs)) ++ [48; 13; 10; 13; 10])
+        with (hex_of_Z (blen d) ++ 13 :: 10 :: (d ++ 13 :: 10 :: (concat (map write_chunk cs) ++ [48; 13; 10; 13; 10]))).
+      2:{ rewrite <- !app_assoc. reflexivity. }
+      cbn [strict_chunks]. rewrite (split_crlf_app _ _ Hc), Hp.
+      replace (blen d =? 0) with false by (unfold blen, d; cbn [length]; lia).
+      replace (blen (d ++ 13 :: 10 :: concat (map write_chunk cs) ++ [48; 13; 10; 13; 10]) <? blen d) with false.
+      2:{ unfold blen. rewrite app_length. lia. }
+      unfold blen. rewrite Nat2Z.id, skipn_app_len, firstn_app_len.
+      rewrite IH; [|exact Hcs|cbn [length] in Hf; lia].
+      cbn [concat]. rewrite <- app_assoc. reflexivity.
+Qed.
+
+(* ---------- sorting keeps the elements ---------- *)
+Lemma forallb_insert (P : bytes * bytes -> bool) kv l :
+  forallb P (insert_field kv l) = P kv && forallb P l.
+Proof.
+  induction l as [|x l IH]; cbn [insert_field forallb]; [reflexivity|].
+  destruct (bytes_ltb (fst x) (fst kv)); cbn [forallb]; [rewrite IH|reflexivity].
+  destruct (P x), (P kv); reflexivity.
+Qed.
+Lemma forallb_sort (P : bytes * bytes -> bool) l : forallb P (sort_fields l) = forallb P l.
+Proof.
+  unfold sort_fields. induction l as [|x l IH]; cbn [fold_right forallb]; [reflexivity|].
+  rewrite forallb_insert, IH. reflexivity.
+Qed.
+Lemma forallb_filter_both {A} (P Q : A -> bool) l :
+  forallb P l = true -> forallb (fun x => P x && Q x) (filter Q l) = true.
+Proof.
+  induction l as [|x l IH]; cbn [filter forallb]; [reflexivity|]. intro H. apply andb_true_iff in H. destruct H as [H1 H2].
+  destruct (Q x) eqn:E; [cbn [forallb]; rewrite H1, E, (IH H2); reflexivity|exact (IH H2)].
+Qed.
+
+(* ---------- the written bytes: shape ---------- *)
+Definition frl (r : wreq) : fields :=
+  match w_body r with
+  | WChunked _ => [(s_te, s_chunked)]
+  | WLen n _ => [(s_cl, dec_of_Z n)]
+  | WNone => match get_first s_cl (w_fields r) with [] => [] | _ => [(s_cl, [48])] end
+  end.
+Definition fw (r : wreq) : fields :=
+  map (fun kv => (fst kv, sanitize_value (snd kv))) (forwarded_fields (w_fields r)).
+Definition body_bytes (r : wreq) : bytes :=
+  match w_body r with
+  | WChunked cs => concat (map write_chunk cs) ++ [48; 13; 10; 13; 10]
+  | WLen _ d => d
+  | WNone => []
+  end.
+Lemma concat_lines_fw r : concat (map line (fw r)) = write_subset (w_fields r).
+Proof.
+  unfold fw, write_subset. rewrite map_map. f_equal.
+Qed.
+Lemma write_shape r : w_method r <> [] ->
+  write_request r =
+  (w_method r ++ 32 :: w_ruri r ++ 32 :: s_http11) ++ 13 :: 10 ::
+  concat (map line ((s_host, w_host r) :: frl r ++ fw r)) ++ 13 :: 10 :: body_bytes r.
+Proof.
+  intro Hm. unfold write_request. destruct (w_method r) as [|m0 m] eqn:Em; [congruence|].
+  cbn [map concat]. rewrite map_app, concat_app, concat_lines_fw.
+  unfold frl, body_bytes, line. cbn [fst snd].
+  destruct (w_body r) as [|n d|cs]; [destruct (get_first s_cl (w_fields r))| |];
+    cbn [map concat]; unfold s_http11_line, s_host_colon, s_cl_colon, s_te_chunked_line, s_http11, s_host, colon_sp, crlf;
+    repeat rewrite <- app_assoc; cbn [app]; repeat rewrite <- app_assoc; reflexivity.
+Qed.
+
+(* ---------- well-formed accepted requests ---------- *)
+Definition canon_ok (kv : bytes * bytes) : bool := bytes_eqb (canon_key (fst kv)) (fst kv).
+Definition body_ok (b : wbody) : bool :=
+  match b with
+  | WNone => true
+  | WLen n d => (0 <? n) && (n <? 10 ^ 80) && (blen d =? n)
+  | WChunked cs => forallb (fun d => blen d <? 16 ^ 16) cs
+  end.
+Definition wf_wreq (r : wreq) : bool := forallb canon_ok (w_fields r) && body_ok (w_body r).
+
+Lemma sanitize_no_crlf v : no_crlf (sanitize_value v) = true.
+Proof.
+  unfold sanitize_value, trim4, trim, trim_right.
+  assert (Hm : forall l, no_crlf l = true -> forall f, no_crlf (trim_left f l) = true).
+  { intros l. induction l as [|x l IH]; intros H f; [reflexivity|]. cbn [trim_left].
+    destruct (f x); [|exact H]. apply IH. unfold no_crlf in *. cbn [forallb] in H. apply andb_true_iff in H. apply H. }
+  assert (Hr : forall l, no_crlf l = true -> no_crlf (rev l) = true).
+  { intros l H. unfold no_crlf in *. apply forallb_forall. intros x Hx. apply in_rev in Hx. revert x Hx. apply forallb_forall. exact H. }
+  apply Hr, Hm, Hr, Hm.
+  unfold no_crlf. induction v as [|b v IH]; [reflexivity|]. cbn [map forallb]. rewrite IH, andb_true_r.
+  destruct ((b =? 10) || (b =? 13)) eqn:E; [reflexivity|]. apply orb_false_iff in E. destruct E as [E1 E2].
+  rewrite E1, E2. reflexivity.
+Qed.
+
+Lemma get_all_canon K l :
+  get_all K (canon_fields l) = map snd (filter (fun kv => bytes_eqb (canon_key (fst kv)) K) l).
+Proof.
+  unfold get_all, canon_fields, key_is. induction l as [|kv l IH]; cbn [map filter fst snd]; [reflexivity|].
+  destruct (bytes_eqb (canon_key (fst kv)) K); cbn [map snd]; rewrite IH; reflexivity.
+Qed.
+
+Definition fwd_ok (kv : bytes * bytes) : bool := canon_ok kv && negb (write_excluded (fst kv)).
+Lemma fwd_ok_not_key K kv : fwd_ok kv = true ->
+  (K = s_host \/ K = s_cl \/ K = s_te) -> bytes_eqb (canon_key (fst kv)) K = false.
+Proof.
+  unfold fwd_ok, canon_ok, write_excluded. intros H HK. apply andb_true_iff in H. destruct H as [H1 H2].
+  apply bytes_eqb_eq in H1. rewrite H1. apply negb_true_iff in H2.
+  apply orb_false_iff in H2. destruct H2 as [H2 _]. apply orb_false_iff in H2. destruct H2 as [H2 H4].
+  apply orb_false_iff in H2. destruct H2 as [H2 H3].
+  destruct HK as [->|[->| ->]]; assumption.
+Qed.
+Lemma fwd_ok_not_framing kv : fwd_ok kv = true -> strict_framing_key (fst kv) = false.
+Proof.
+  intro H. unfold strict_framing_key.
+  rewrite (fwd_ok_not_key s_host _ H), (fwd_ok_not_key s_cl _ H), (fwd_ok_not_key s_te _ H); auto.
+Qed.
+Lemma forwarded_fwd_ok h : forallb canon_ok h = true -> forallb fwd_ok (forwarded_fields h) = true.
+Proof.
+  intro H. unfold forwarded_fields. rewrite forallb_sort. unfold fwd_ok.
+  apply (forallb_filter_both canon_ok (fun kv => negb (write_excluded (fst kv)))). exact H.
+Qed.
+Lemma forallb_map_fst (P : bytes * bytes -> bool) (g : bytes * bytes -> bytes * bytes) l :
+  (forall kv, P (g kv) = P kv) -> forallb P (map g l) = forallb P l.
+Proof. intro H. induction l as [|x l IH]; cbn [map forallb]; [reflexivity|]. rewrite H, IH. reflexivity. Qed.
+Lemma filter_none {A} (P : A -> bool) l : forallb (fun x => negb (P x)) l = true -> filter P l = [].
+Proof.
+  induction l as [|x l IH]; cbn [forallb filter]; [reflexivity|]. intro H. apply andb_true_iff in H. destruct H as [H1 H2].
+  apply negb_true_iff in H1. rewrite H1. exact (IH H2).
+Qed.
+Lemma filter_all {A} (P : A -> bool) l : forallb P l = true -> filter P l = l.
+Proof.
+  induction l as [|x l IH]; cbn [forallb filter]; [reflexivity|]. intro H. apply andb_true_iff in H. destruct H as [H1 H2].
+  rewrite H1, (IH H2). reflexivity.
+Qed.
+
+(* parsed forwarded lines: no Host / Content-Length / Transfer-Encoding among them, all kept as "other" fields *)
+Lemma pfw_props r : forallb canon_ok (w_fields r) = true ->
+  forallb fwd_ok (map parsed (fw r)) = true.
+Proof.
+  intro H. unfold fw. rewrite !forallb_map_fst; [apply forwarded_fwd_ok; exact H| |]; intros kv; reflexivity.
+Qed.
+Lemma fwd_get_none K l : forallb fwd_ok l = true -> (K = s_host \/ K = s_cl \/ K = s_te) ->
+  filter (fun kv => bytes_eqb (canon_key (fst kv)) K) l = [].
+Proof.
+  intros H HK. apply filter_none. apply (forallb_impl fwd_ok); [|exact H].
+  intros kv Hkv. rewrite (fwd_ok_not_key K kv Hkv HK). reflexivity.
+Qed.
+Lemma fwd_others l : forallb fwd_ok l = true ->
+  filter (fun kv => negb (strict_framing_key (fst kv))) l = l.
+Proof.
+  intro H. apply filter_all. apply (forallb_impl fwd_ok); [|exact H].
+  intros kv Hkv. rewrite (fwd_ok_not_framing kv Hkv). reflexivity.
+Qed.
+
+Lemma good_fw r : forallb (fun kv => is_token (fst kv)) (forwarded_fields (w_fields r)) = true ->
+  forallb good_kv (fw r) = true.
+Proof.
+  intro H. unfold fw. induction (forwarded_fields (w_fields r)) as [|kv l IH]; [reflexivity|].
+  cbn [forallb] in H. apply andb_true_iff in H. destruct H as [H1 H2].
+  cbn [map forallb]. unfold good_kv at 1. cbn [fst snd]. rewrite H1, sanitize_no_crlf, (IH H2). reflexivity.
+Qed.
+
+(* ---------- headline ---------- *)
+Theorem C25_one_wellformed_request_lemma : forall r,
+  safe_request r = true -> wf_wreq r = true ->
+  strict_parse (write_request r) = Some (normalize r).
+Proof.
+  intros r Hs Hw. unfold safe_request, unsafe_component in Hs.
+  destruct (is_token (w_method r)) eqn:Hm; cbn [negb] in Hs; [|discriminate].
+  destruct (target_ok (w_ruri r)) eqn:Ht; cbn [negb] in Hs; [|discriminate].
+  destruct (no_crlf (w_host r)) eqn:Hh; cbn [negb] in Hs; [|discriminate].
+  destruct (forallb (fun kv => is_token (fst kv)) (forwarded_fields (w_fields r))) eqn:Hn; cbn [negb] in Hs; [|discriminate].
+  clear Hs. unfold wf_wreq in Hw. apply andb_true_iff in Hw. destruct Hw as [Hc Hb].
+  assert (Hmne : w_method r <> []) by (destruct (w_method r); [discriminate|discriminate]).
+  rewrite (write_shape r Hmne). unfold strict_parse.
+  (* request line *)
+  assert (Htn : nosep 32 (w_ruri r) = true /\ no_crlf (w_ruri r) = true).
+  { unfold target_ok in Ht. destruct (w_ruri r) as [|t0 t]; [discriminate|]. split.
+    - unfold nosep. apply (forallb_impl target_byte_ok); [|exact Ht]. intros b Hb0. unfold target_byte_ok in Hb0. lia.
+    - unfold no_crlf. apply (forallb_impl target_byte_ok); [|exact Ht]. intros b Hb0. unfold target_byte_ok in Hb0. lia. }
+  destruct Htn as [Htn Htc].
+  rewrite split_crlf_app.
+  2:{ rewrite no_crlf_app, (token_no_crlf _ Hm). cbn [andb]. change (32 :: w_ruri r ++ 32 :: s_http11) with ([32] ++ w_ruri r ++ 32 :: s_http11).
+      rewrite !no_crlf_app, Htc. reflexivity. }
+  unfold strict_reqline.
+  rewrite (split_byte_app 32 (w_method r)) by (apply token_nosep; [exact Hm|lia]).
+  rewrite (split_byte_app 32 (w_ruri r)) by exact Htn.
+  rewrite (split_byte_nosep 32 s_http11) by reflexivity.
+  rewrite Hm, Ht, bytes_eqb_refl. cbn [andb].
+  (* header block *)
+  set (L := (s_host, w_host r) :: frl r ++ fw r).
+  assert (HgL : forallb good_kv L = true).
+  { assert (G1 : good_kv (s_host, w_host r) = true).
+    { unfold good_kv. cbn [fst snd]. rewrite Hh. reflexivity. }
+    assert (G2 : forallb good_kv (frl r) = true).
+    { unfold frl. destruct (w_body r) as [|n d|cs]; [destruct (get_first s_cl (w_fields r)); reflexivity| |reflexivity].
+      cbn [body_ok] in Hb. assert (Hn80 : 0 <= n < 10 ^ 80) by lia.
+      destruct (parse_dec_dec_of_Z n Hn80) as [_ Hd].
+      assert (Hnc : no_crlf (dec_of_Z n) = true).
+      { unfold no_crlf. apply (forallb_impl is_digit); [|exact Hd]. intros b Hb0. unfold is_digit in Hb0. lia. }
+      cbn [forallb]. unfold good_kv. cbn [fst snd]. rewrite Hnc. reflexivity. }
+    unfold L. cbn [forallb]. rewrite forallb_app, G1, G2, (good_fw r Hn). reflexivity. }
+  rewrite (strict_fields_lines L _ [] (body_bytes r) HgL).
+  2:{ assert (forall M, (length M <= length (concat (map line M)))%nat) as Hlen.
+      { induction M as [|kv M IHM]; [cbn; lia|]. cbn [map concat length]. rewrite app_length. unfold line at 1.
+        rewrite !app_length. unfold crlf. cbn [length]. lia. }
+      specialize (Hlen L). rewrite app_length. lia. }
+  cbn [rev app].
+  (* Host / framing / other fields *)
+  pose proof (pfw_props r Hc) as Hp.
+  assert (Hsplit : map parsed L = parsed (s_host, w_host r) :: map parsed (frl r) ++ map parsed (fw r)).
+  { unfold L. cbn [map]. rewrite map_app. reflexivity. }
+  rewrite Hsplit. clear Hsplit.
+  rewrite !get_all_canon.
+  change (parsed (s_host, w_host r)) with (s_host, trim is_space (w_host r)).
+  cbn [filter fst].
+  change (bytes_eqb (canon_key s_host) s_host) with true.
+  change (bytes_eqb (canon_key s_host) s_te) with false.
+  change (bytes_eqb (canon_key s_host) s_cl) with false.
+  change (strict_framing_key s_host) with true. cbn [negb].
+  rewrite !filter_app.
+  rewrite (fwd_get_none s_host _ Hp), (fwd_get_none s_cl _ Hp), (fwd_get_none s_te _ Hp), (fwd_others _ Hp); auto.
+  rewrite !app_nil_r.
+  unfold frl, body_bytes, normalize, body_of. unfold fw. rewrite map_map.
+  destruct (w_body r) as [|n d|cs].
+  - destruct (get_first s_cl (w_fields r)); reflexivity.
+  - cbn [body_ok] in Hb. assert (Hn80 : 0 <= n < 10 ^ 80) by lia.
+    destruct (parse_dec_dec_of_Z n Hn80) as [Hpd Hd].
+    cbn [map filter parsed fst snd].
+    replace (bytes_eqb (canon_key s_cl) s_host) with false by reflexivity.
+    replace (bytes_eqb (canon_key s_cl) s_te) with false by reflexivity.
+    replace (bytes_eqb (canon_key s_cl) s_cl) with true by reflexivity.
+    replace (strict_framing_key s_cl) with true by reflexivity.
+    cbn [map snd app negb]. change (snd (parsed (s_cl, dec_of_Z n))) with (trim is_space (dec_of_Z n)).
+    rewrite (digits_trim _ Hd), Hpd.
+    replace (blen d =? n) with true by lia. reflexivity.
+  - discriminate.
+Qed.
+
+(* ---------- the same through the wire predicates ---------- *)
+Lemma sreq_eqb_refl a : sreq_eqb a a = true.
+Proof. unfold sreq_eqb. rewrite !bytes_eqb_refl, fields_eqb_refl. reflexivity. Qed.
+Theorem C25_prop_of_model_lemma : forall i r,
+  accepted i = inr r -> safe_request r = true -> wf_wreq r = true ->
+  prop_C25 i (run_C25 i) = true.
+Proof.
+  intros i r Ha Hs Hw. unfold run_C25, prop_C25. rewrite Ha.
+  rewrite (C25_one_wellformed_request_lemma r Hs Hw). apply sreq_eqb_refl.
+Qed.
+
+(* ---------- refutations: accepted requests that are not safe, per frontend ---------- *)
+Definition h1_in (s : bytes) : val := VL [VZ 1; VB s].
+Definition fl_in (tag : Z) (ps : fields) : val := VL [VZ tag; VL (map (fun kv => VL [VB (fst kv); VB (snd kv)]) ps)].
+Definition b_get : bytes := [71;69;84].
+Definition b_slash : bytes := [47].
+Definition b_https : bytes := [104;116;116;112;115].
+Definition b_ahost : bytes := [97;46;101;120].                       (* a.ex *)
+Definition b_ver : bytes := [72;84;84;80;47;49;46;49].
+Definition b_evil_line : bytes := [13;10;69;118;105;108;58;32;49]. (* \r\nEvil: 1 *)
+Definition h2_base (m p : bytes) : fields := [(p_method, m); (p_path, p); (p_scheme, b_https); (p_authority, b_ahost)].
+Definition spdy_base (m p h : bytes) (extra : fields) : fields :=
+  [(p_method, m); (p_path, p); (p_scheme, b_https); (p_host, h); (p_version, b_ver)] ++ extra.
+(* HTTP/1: "G(T / HTTP/1.1\r\nHost: a\r\n\r\n" ; "GET / HTTP/1.1\r\nHost: a\rb\r\n\r\n" ; "GET / HTTP/1.1\r\nX A: 1\r\n\r\n" *)
+Definition w11 : val := h1_in ([71;40;84;32;47;32] ++ b_ver ++ [13;10;72;111;115;116;58;32;97;13;10;13;10]).
+Definition w13 : val := h1_in (b_get ++ [32;47;32] ++ b_ver ++ [13;10;72;111;115;116;58;32;97;13;98;13;10;13;10]).
+Definition w14 : val := h1_in (b_get ++ [32;47;32] ++ b_ver ++ [13;10;88;32;65;58;32;49;13;10;13;10]).
+(* HTTP/2: :method "GET /x" ; :path "/a b" *)
+Definition w21 : val := fl_in 2 (h2_base (b_get ++ [32;47;120]) b_slash).
+Definition w22 : val := fl_in 2 (h2_base b_get [47;97;32;98]).
+(* SPDY: :method with CRLF ; :path "/a b" ; :host with CRLF ; header name with CRLF *)
+Definition w31 : val := fl_in 3 (spdy_base (b_get ++ b_evil_line) b_slash b_ahost []).
+Definition w32 : val := fl_in 3 (spdy_base b_get [47;97;32;98] b_ahost []).
+Definition w33 : val := fl_in 3 (spdy_base b_get b_slash (b_ahost ++ b_evil_line) []).
+Definition w34 : val := fl_in 3 (spdy_base b_get b_slash b_ahost [([120;13;10;101;118;105;108;58;32;49], [118])]).
+Definition refuted25 (i : val) (k : Z) : Prop :=
+  kf_C25 i = k /\ (exists out, run_C25 i = VL [VZ 0; VB out]) /\ prop_C25 i (run_C25 i) = false.
+Lemma C25_refuted_lemma :
+  refuted25 w11 11 /\ refuted25 w13 13 /\ refuted25 w14 14 /\ refuted25 w21 21 /\ refuted25 w22 22 /\
+  refuted25 w31 31 /\ refuted25 w32 32 /\ refuted25 w33 33 /\ refuted25 w34 34.
+Proof. repeat split; try (vm_compute; reflexivity); eexists; vm_compute; reflexivity. Qed.
+
+(* non-vacuity: one safe, well-formed accepted request per frontend; HTTP/1 one carries a 3-byte body *)
+(* "POST /p HTTP/1.1\r\nHost: a\r\nX-B: a\rb\r\nContent-Length: 3\r\n\r\nabc" *)
+Definition ok1 : val := h1_in ([80;79;83;84;32;47;112;32] ++ b_ver ++ [13;10;72;111;115;116;58;32;97;13;10;88;45;66;58;32;97;13;98;13;10] ++
+                               s_cl ++ [58;32;51;13;10;13;10;97;98;99]).
+Definition s_cookie_lc : bytes := [99;111;111;107;105;101].
+Definition ok2 : val := fl_in 2 (h2_base b_get b_slash ++ [([120;45;97], [118;9;119]); (s_cookie_lc, [97]); (s_cookie_lc, [98])]).
+Definition ok3 : val := fl_in 3 (spdy_base b_get b_slash b_ahost [([120;45;97], [97;13;10;69;118;105;108;58;32;49;0;98])]).
+Definition nonvac (i : val) : Prop :=
+  exists r, accepted i = inr r /\ safe_request r = true /\ wf_wreq r = true /\ prop_C25 i (run_C25 i) = true.
+Lemma C25_nonvacuous_lemma : nonvac ok1 /\ nonvac ok2 /\ nonvac ok3.
+Proof. repeat split; eexists; (split; [vm_compute; reflexivity|]); repeat split; vm_compute; reflexivity. Qed.
